@@ -50,6 +50,10 @@ pub fn tlc_safe(v: Value) -> Value {
 }
 
 fn rank_fill(s: &mut Shader) {
+    use case::CaseExt;
+    for d in &mut s.structs {
+        d.snake = d.name.to_snake();
+    }
     // order- and equality-preserving small-integer abstraction of @group/@binding
     let mut gs: Vec<u64> = vec![];
     let mut bs: Vec<u64> = vec![];
